@@ -61,9 +61,26 @@ def lean_sources():
     res.append(os.path.join(LEAN, 'Driver', 'Main.lean'))
     return sorted(res)
 
-def forbidden_scan():
+def import_closure(prop):
+    """files of this project that Props/<prop>.lean imports, transitively (plus the driver)"""
+    seen, todo = set(), ['PyxisVerif.Props.' + prop, 'Driver.Main']
+    while todo:
+        m = todo.pop()
+        if m in seen:
+            continue
+        path = os.path.join(LEAN, *m.split('.')) + '.lean'
+        if not os.path.exists(path):
+            continue
+        seen.add(m)
+        for line in open(path):
+            mm = re.match(r'\s*(?:public\s+)?import\s+(\S+)', line)
+            if mm:
+                todo.append(mm.group(1))
+    return sorted(os.path.join(LEAN, *m.split('.')) + '.lean' for m in seen)
+
+def forbidden_scan(prop=None):
     hits = []
-    for p in lean_sources():
+    for p in (import_closure(prop) if prop else lean_sources()):
         code = strip_comments(open(p).read())
         for ln, line in enumerate(code.split('\n'), 1):
             if FORBIDDEN.search(line):
